@@ -42,7 +42,7 @@ def strip_comments(src):
 
 
 # which machine-translated kernels a property's theorem file depends on (Proofs/Gen*.lean prove them equal to the hand model)
-GEN_KERNELS = {"C03": ["Stream"], "C04": ["Stream"], "C17": ["Stream"], "C07": ["Utils", "Poly1305", "Blake2b", "SipHash", "Core"], "C09": ["Utils", "Argon2", "Pwhash"], "C10": ["Pwhash"], "C12": ["Utils", "Blake2b", "Curve"], "C18": ["Utils", "Blake2b", "SimdText"], "C05": ["Curve"], "C13": ["Curve"],
+GEN_KERNELS = {"C11": ["Rand"], "C03": ["Stream"], "C04": ["Stream"], "C17": ["Stream"], "C07": ["Utils", "Poly1305", "Blake2b", "SipHash", "Core"], "C09": ["Utils", "Argon2", "Pwhash"], "C10": ["Pwhash"], "C12": ["Utils", "Blake2b", "Curve"], "C18": ["Utils", "Blake2b", "SimdText"], "C05": ["Curve", "Kx"], "C13": ["Curve"],
                "C14": ["Protected"], "C15": ["Protected"]}
 
 
